@@ -55,7 +55,17 @@ class ClockControl:
 CLOCK = ClockControl()
 
 
-class VClock(datetime):
+class _VClockMeta(type):
+    """Library code that type-checks with the rebound name (`isinstance(x, datetime)`) must keep accepting plain datetimes."""
+
+    def __instancecheck__(cls, obj):
+        return isinstance(obj, datetime)
+
+    def __subclasscheck__(cls, sub):
+        return issubclass(sub, datetime)
+
+
+class VClock(datetime, metaclass=_VClockMeta):
     """datetime whose now()/today()/utcnow() are answered by the harness."""
 
     @classmethod
